@@ -126,7 +126,7 @@ def run(ctx):
     n = 0
     for prop, (suffix, tag) in sorted(EXPECTED.items()):
         key = "core_properties.%s" % prop
-        g, st = part.methods.get(prop), part.setters.get(prop)
+        g, st = prog.lookup(part, prop), prog.lookup_setter(part, prop)   # (own or inherited from a mixin of accessors)
         if g is None or st is None:
             ctx.violation("R18.1", key, "property %s is not read/write on CorePropertiesPart" % prop, file=part.file, line=part.line)
             continue
